@@ -225,3 +225,69 @@ impl VxRange for RangeInclusive<usize> {
     fn vx_map<B, F: Fn(usize) -> B>(self, f: F) -> (r: VxIt<B>) { unimplemented!() }
 }
 
+impl VxIntoIter<u64> for Range<u64> {
+    open spec fn vx_seq(&self) -> Seq<u64> { Seq::new((if self.end >= self.start { self.end - self.start } else { 0 }) as nat, |j: int| (self.start + j) as u64) }
+    #[verifier::external_body]
+    fn vx_into(self) -> (r: VxIt<u64>) { unimplemented!() }
+}
+
+// ---- A-hashmap: facade for std::collections::HashMap<String, V>
+pub struct HashMap<K, V> {
+    pub m: Ghost<Map<Seq<char>, V>>,
+    pub _k: core::marker::PhantomData<K>,
+}
+pub trait VxKey { spec fn key(&self) -> Seq<char>; }
+impl VxKey for String { open spec fn key(&self) -> Seq<char> { self@ } }
+impl VxKey for str { open spec fn key(&self) -> Seq<char> { self@ } }
+impl<V> HashMap<String, V> {
+    pub open spec fn view(&self) -> Map<Seq<char>, V> { self.m@ }
+    #[verifier::external_body]
+    pub fn get<Q: VxKey + ?Sized>(&self, k: &Q) -> (r: Option<&V>)
+        ensures
+            self@.contains_key(k.key()) ==> r is Some && *r->Some_0 == self@[k.key()],
+            !self@.contains_key(k.key()) ==> r is None,
+    { unimplemented!() }
+}
+
+// ---- A-schema: crate::Math / crate::Settings as far as the column mapping uses them
+/// one declared draw variable: name, names of its dimensions, item type
+pub struct VarDecl { pub name: Seq<char>, pub dims: Seq<Seq<char>>, pub ty: ItemType }
+pub open spec fn dims_are(r: Seq<(String, Vec<String>)>, sch: Seq<VarDecl>) -> bool {
+    r.len() == sch.len() && forall|j: int| 0 <= j < r.len() ==> (#[trigger] r[j]).0@ == sch[j].name && str_views(r[j].1@) == sch[j].dims
+}
+pub open spec fn str_views(s: Seq<String>) -> Seq<Seq<char>> { Seq::new(s.len(), |j: int| s[j]@) }
+pub trait Math: Sized {
+    /// the model's dimension table (`HasDims::dim_sizes`) and coordinate table (`HasDims::coords`)
+    spec fn dim_sizes_spec(&self) -> Map<Seq<char>, u64>;
+    spec fn coords_spec(&self) -> Map<Seq<char>, Value>;
+    fn dim_sizes(&self) -> (r: HashMap<String, u64>) ensures r@ == self.dim_sizes_spec();
+    fn coords(&self) -> (r: HashMap<String, Value>) ensures r@ == self.coords_spec();
+}
+pub trait Settings: Sized {
+    /// the draw-variable schema: (name, dims, type) in declaration order
+    spec fn data_schema<M: Math>(&self, math: &M) -> Seq<VarDecl>;
+    /// type reported for a name (`Storable::item_type(math, name)`): a function of the NAME
+    spec fn type_of<M: Math>(&self, math: &M, name: Seq<char>) -> ItemType;
+    fn data_dims_all<M: Math>(&self, math: &M) -> (r: Vec<(String, Vec<String>)>)
+        ensures dims_are(r@, self.data_schema(math));
+    fn data_type<M: Math>(&self, math: &M, name: &str) -> (r: ItemType)
+        ensures r == self.type_of(math, name@);
+    fn data_names<M: Math>(&self, math: &M) -> (r: Vec<String>)
+        ensures r@.len() == self.data_schema(math).len();
+}
+
+// ---- A-colnames: NOT EXTRACTED (time box): `generate_column_names_and_indices_for_variable` of src/storage/csv.rs.
+// Its index half is exactly what `cartesian_product_with_indices_column_major` is PROVED to return for the sizes
+// `shape_of(..)`; the glue in between (building dim_sizes_vec / the label sets from the tables, the scalar case
+// `([name], [0])`, the name texts) is ASSUMED here.
+#[verifier::external_body]
+pub fn generate_column_names_and_indices_for_variable<M: Math>(
+    var_name: &str,
+    var_dims: &[String],
+    coords: &HashMap<String, Value>,
+    math: &M,
+) -> (r: Result<(Vec<String>, Vec<usize>)>)
+    requires var_ok(math.dim_sizes_spec(), coords@, str_views(var_dims@)),
+    ensures r is Ok ==> r->Ok_0.1@ == iota(0, prod(shape_of(math.dim_sizes_spec(), str_views(var_dims@))))
+        && r->Ok_0.0@.len() == r->Ok_0.1@.len(),
+{ unimplemented!() }
